@@ -18,6 +18,7 @@ func runC01(c *Ctx) {
 	c01TTL(c, "C01.ttl")
 	c01DecisionTable(c, "C01.decision-table")
 	c01WalkName(c, "C01.walk-name")
+	c04PostAlways(c, "C01.post-always")
 	c01WildsafeSpan(c, "C01.wildsafe-span")
 	c01TxtChunks(c, "C01.txt-chunks")
 	// whether a name is answered authoritatively or as a referral depends on both the located and the untagged rows
